@@ -44,8 +44,11 @@ func genQueue(r *rand.Rand, emit func(core.Case), n int) {
 		ops = append(ops, fmt.Sprintf("q.new h=%d f=%d c=%d", h, f, chunks))
 		steps := 5 + r.Intn(40)
 		for s := 0; s < steps; s++ {
-			idx := r.Intn(chunks + 1)
-			if r.Intn(10) == 0 {
+			idx := 0
+			if chunks > 0 {
+				idx = r.Intn(chunks)
+			}
+			if r.Intn(8) == 0 {
 				idx = r.Intn(chunks + 3)
 			}
 			switch k := r.Intn(30); {
@@ -383,6 +386,8 @@ func main() {
 			"the state provider is a function of the height (the light client behind it is C09's subject)",
 		},
 		Parallel: 8,
-		Extra:    func() map[string]interface{} { return map[string]interface{}{"scenario_histogram": scenHist} },
+		Extra: func() map[string]interface{} {
+			return map[string]interface{}{"scenario_histogram": scenHist, "syncany_result_histogram": runHist, "verdict_histogram": verdictHist}
+		},
 	})
 }
